@@ -99,7 +99,8 @@ INVALID_VALIDITIES = [
 def gen(seed, run, tier='quick'):
     rng = core.rng_for(seed, PROP, run)
     primes = _primes()
-    n_cur = rng.choice([3, 3, 4, 5])
+    deep = tier == 'thorough'
+    n_cur = rng.choice([3, 3, 4, 5] + ([6] if deep else []))
     codes = rng.sample(ISO, n_cur)
     curs = []
     for k, c in enumerate(codes):
@@ -108,7 +109,7 @@ def gen(seed, run, tier='quick'):
                          'minor': rng.choice([0, 2, 3])})
         else:
             curs.append({'how': 'iso', 'sym': c})
-    n_conv = rng.choice([1, 1, 2, 3])
+    n_conv = rng.choice([1, 1, 2, 3] + ([4] if deep else []))
     anchor = dt.date.fromisoformat(rng.choice(ANCHORS))
     pool = _neighbours(anchor)
     far = dt.date(rng.randrange(1, 10000), rng.randrange(1, 13),
@@ -128,7 +129,7 @@ def gen(seed, run, tier='quick'):
     sym_cur_p = rng.choice([0, 0.15, 0.4])
     kinds = list(w)
     weights = [w[k] for k in kinds]
-    n_ops = rng.randrange(3, MAX_OPS + 1)
+    n_ops = rng.randrange(3, (2 * MAX_OPS if deep else MAX_OPS) + 1)
     ops = []
     used_primes = set()
 
